@@ -150,3 +150,18 @@ PROPS["C13"] = {
     "assumptions": ["callers that arrive between the end of the loader and the table cleanup are not scheduled by the harness (needs a hook; see DESIGN F17)"],
     "explanation": "single-flight invariants over all schedules of the model; results per caller compared with the real Group",
 }
+
+PERSIST_RULE = ("real Persist of caches of 20..140 cost units (empty, TTL and non-TTL entries, mixed costs, any uptime, adaptive split moved in a third "
+                "of the streams), then real Recover into a fresh cache of the clean stream (same size, later, smaller, other version), of prefixes "
+                "(random and the last 8 offsets) and of damaged copies (single-bit flips, byte substitutions, multi-byte and double damage, header "
+                "region over-sampled); every stream is also decoded with the real gob decoder into the model's block operations; "
+                "non-trivial = a variant with >= 3 steps; distinct = sha1 of the variant")
+PERSIST_TB = [KERNEL, EXTRACT, HARNESS, "hook H1 (virtual wall clock)",
+              "modelled, not verified: encoding/gob (the harness maps bytes to blocks with the real decoder), xxh3 (a block is 'checksum-valid' or not), "
+              "the timer wheel and sketch side effects of Recover (covered by C04 / C17)"]
+PROPS["C11"] = {"props_files": ["Props/C11.v"], "go_tests": ["TestVerifPersist"], "level": "proof", "rule": PERSIST_RULE,
+                "trusted_base": PERSIST_TB, "assumptions": ["the receiving cache is fresh", "hypothesis 'detects' is not needed for C11 (clean streams)"],
+                "monitor_tags": ["C11"], "explanation": "round-trip theorems on the block model; real Persist/Recover replayed"}
+PROPS["C12"] = {"props_files": ["Props/C12.v"], "go_tests": ["TestVerifPersist"], "level": "proof", "rule": PERSIST_RULE,
+                "trusted_base": PERSIST_TB, "assumptions": ["'detects': a block whose checksum verifies carries saved data (accidental damage does not collide xxh3); validated on every damaged block seen"],
+                "monitor_tags": ["C12"], "explanation": "damage theorems on the block model; every damaged stream replayed on real LoadCache"}
